@@ -605,4 +605,44 @@ example : extOriginal [("locus_tag", ["m1"]), ("protein_start", ["5"]), ("protei
     extOriginal (extWrite [("aSTool", ["external"]), ("locus_tag", ["CDS_motif"]), ("note", ["n"]), ("protein_end", ["1"]), ("protein_start", ["0"])]
                           [("locus_tag", ["m1"]), ("note", ["n"])]) = [("note", ["n"]), ("locus_tag", ["m1"])] := by decide +kernel
 
+/-! ### `Feature.to_biopython` keeps every note -/
+
+/-- the `note` qualifier of the written feature holds exactly the feature's notes — the stored `note` qualifier, the
+    `notes` attribute and the notes a subclass supplies — as a multiset: the same texts, each as often as it occurs
+    (sorted, nothing merged, nothing dropped); for every feature, every class qualifiers `extra`, with or without a codon start -/
+theorem written_notes_are_all_notes (f : Feat) (extra : Quals) (hq : Q.Nodup f.quals) (hX : Q.Nodup extra) (b : Bio)
+    (hb : f.toBio extra = .ok b) :
+    ((Q.get? b.quals "note").getD []).Perm ((Q.get? f.quals "note").getD [] ++ f.notes ++ (Q.get? extra "note").getD []) := by
+  have hFQ := nodup_finalQuals f extra hq
+  have hquals : b.quals = Q.sortKeys (finalQuals f extra) := by
+    rw [toBio_eq] at hb
+    cases hc : f.codon with
+    | none => rw [hc] at hb; cases hb; rfl
+    | some c =>
+      rw [hc] at hb
+      simp only [Except.map] at hb
+      cases hfs : frameshift f.loc (c + 1) true with
+      | error e => rw [hfs] at hb; cases hb
+      | ok l => rw [hfs] at hb; cases hb; rfl
+  rw [hquals, Q.get?_sortKeys hFQ, get?_finalQuals f extra hX]
+  have h1 : ¬ ("note" = "codon_start" ∧ f.codon.isSome = true) := by intro h; exact absurd h.1 (by decide)
+  have h2 : ¬ ("note" = "tool" ∧ f.byAS = true) := by intro h; exact absurd h.1 (by decide)
+  simp only [h1, h2, if_false, true_and, if_true]
+  cases he : (allNotes f extra).isEmpty
+  · simp only [if_true, Option.getD_some]
+    exact sortStrs_perm _
+  · have hnil : allNotes f extra = [] := List.isEmpty_iff.1 he
+    simp only [Bool.true_eq_false, if_false]
+    unfold allNotes at hnil
+    rw [hnil]
+    have : (Q.get? f.quals "note").getD [] = [] := by
+      have := List.append_eq_nil_iff.1 hnil
+      exact (List.append_eq_nil_iff.1 this.1).1
+    rw [this]
+
+/-- a stored note and the same text added again, plus a third note: both copies are written (the seeded `sorted(set(notes))`
+    would write one) -/
+example : (match (⟨.simple ⟨10, 40, .fwd⟩, "misc_feature", ["same text", "other"], [("note", ["same text"])], false, none⟩ : Feat).toBio with
+    | .ok b => Q.get? b.quals "note" | _ => none) = some ["other", "same text", "same text"] := by decide +kernel
+
 end ASV.C10
